@@ -150,7 +150,10 @@ impl BlobFile {
         frag_map.get(&self.id()).is_some_and(|x| {
             let stale_bytes = x.bytes;
             let all_bytes = self.0.meta.total_uncompressed_bytes;
-            stale_bytes == all_bytes
+
+            // NOTE: Also compare the blob count, because bytes alone cannot tell apart
+            // "everything is stale" from "some empty values are stale" (0 == 0)
+            stale_bytes == all_bytes && x.len as u64 == self.0.meta.item_count
         })
     }
 }
